@@ -4,6 +4,7 @@ import (
 	"encoding/json"
 	"fmt"
 	"os"
+	"regexp"
 	"runtime/debug"
 	"sort"
 	"strings"
@@ -195,30 +196,51 @@ func HangVerdict(dump string) *Result {
 	if w == nil || w.S == nil || prop == "" {
 		return nil
 	}
-	if len(w.S.Enabled()) > 0 || !w.S.blockedOffGate() {
+	if !w.S.blockedOffGate() {
 		return nil
 	}
+	nothingEnabled := len(w.S.Enabled()) == 0
+	// addresses of the short-section mutexes of every live instance
+	short := map[string]bool{}
+	for _, inst := range w.Insts {
+		for _, a := range inst.shortMutexAddrs() {
+			short[fmt.Sprintf("%#x", a)] = true
+		}
+	}
+	lockSlow := regexp.MustCompile(`\(\*Mutex\)\.lockSlow\((0x[0-9a-f]+)\)`)
 	var involved []string
-	mutexWait := false
+	mutexWait, waitsShort := false, false
 	for _, g := range strings.Split(dump, "\n\n") {
 		if !strings.Contains(g, "massnet.org/mass-wallet/") || strings.Contains(g, "verifsim.(*Sched).Gate") {
 			continue
+		}
+		head := firstLines(g, 1)
+		if strings.Contains(head, "[running") || strings.Contains(head, "[runnable") {
+			return nil // something of the wallet still runs: not stuck
 		}
 		if strings.Contains(g, "time.Sleep") || strings.Contains(g, "time.(*Timer)") {
 			return nil
 		}
 		if strings.Contains(g, "sync.(*Mutex).Lock") || strings.Contains(g, "sync.(*RWMutex).Lock") || strings.Contains(g, "sync.(*RWMutex).RLock") {
 			mutexWait = true
+			if m := lockSlow.FindStringSubmatch(g); m != nil && short[m[1]] {
+				waitsShort = true
+			}
 		}
 		involved = append(involved, firstLines(g, 14))
 	}
-	if !mutexWait {
+	// Either nothing could be released by the scheduler at all, or the awaited
+	// lock is one that no goroutine parked at a gate can hold (short-section
+	// mutexes are never held across a gate, and Sched.Gate does not park a
+	// goroutine that holds one at a hand-shake gate): its holder is among the
+	// blocked ones.
+	if !mutexWait || !(nothingEnabled || waitsShort) {
 		return nil
 	}
 	res := &Result{Prop: prop, Seed: seed, Stats: w.Stats, Steps: w.S.Steps, TraceHash: fmt.Sprintf("%016x", w.S.TraceHash),
 		Plan: w.Plan.Vals, Sched: w.S.Tape.Vals, PlanUsed: w.Plan.Used, SchedUsed: w.S.Tape.Used, Trace: w.S.Trace, Log: w.Log,
 		Extra: map[string]interface{}{"params": params, "hang_verdict": true}}
-	res.Violations = []Violation{{Class: prop + ".mutex-deadlock", Detail: "the wallet's goroutines block each other permanently: nothing is enabled, every live goroutine waits off-gate and at least one waits for a mutex that no runnable goroutine holds; parked/blocked: " + fmt.Sprint(w.S.ParkedSummary()) + "\n" + strings.Join(involved, "\n\n")}}
+	res.Violations = []Violation{{Class: prop + ".mutex-deadlock", Detail: "the wallet's goroutines block each other permanently: every live goroutine that is not parked at a gate is blocked and at least one of them waits for a mutex that none of the goroutines the scheduler could release holds (" + fmt.Sprintf("nothing enabled=%v, short-section mutex=%v", nothingEnabled, waitsShort) + "); parked/blocked: " + fmt.Sprint(w.S.ParkedSummary()) + "\n" + strings.Join(involved, "\n\n")}}
 	return res
 }
 
